@@ -26,6 +26,8 @@ def run(tier):
     nrand = 14 if tier == "quick" else 120
     cand = [gram.random_grammar(r, i, fallible=(i % 3 == 0)) for i in range(nrand)] + [gram.nonlalr_family(r, i) for i in range(3)]
     gs += cand
+    # production counts around the boundary at which the integer type of the tables changes (127/128/129)
+    gs += [gram.size_boundary(t) for t in (125, 126, 127)]
     ok, out, binary, units = cgcheck.build_corpus(rep, lal, gs)
     if not ok:
         rep.violation("generated-code-does-not-compile", {"what": "rustc rejects a generated parser of the corpus", "rustc": out[-3000:]})
